@@ -498,6 +498,12 @@ int sbdf_tm_write(FILE* out, sbdf_tablemetadata const* in)
 
 	for (meta = in->table_metadata->first; meta; meta = meta->next)
 	{
+		if (!meta->value)
+		{
+			/* read from a stream without a value: the value type is not known */
+			return SBDF_ERROR_INCORRECT_METADATA;
+		}
+
 		if (error = sbdf_write_string(out, meta->name))
 		{
 			return error;
